@@ -469,3 +469,52 @@ parks!(misc_parks_belt_w3, P16w3, 16, belt_ctr::BeltCtrCore<P16w3>);
 parks!(misc_parks_ofb_w1, P4w1, 4, ofb::OfbCore<P4w1>);
 #[cfg(not(kani))]
 parks!(misc_parks_ofb_w2, P4w2, 4, ofb::OfbCore<P4w2>);
+
+// ---------------------------------------------------------------- C10 / C11: the reported number of remaining blocks is exact at
+// block positions anywhere in the counter range (incl. around 2^32, 2^64 and the end), and position read-back is exact
+#[cfg(not(kani))]
+use cipher::StreamCipherSeekCore;
+#[cfg(not(kani))]
+macro_rules! remaining {
+    ($h:ident, $cipher:ident, $b:expr, $core:ty, $ct:ty, $max:expr) => {
+        pub fn $h() {
+            let c = $cipher { k: fill() };
+            let iv: [u8; $b] = fill();
+            let max: u128 = $max;
+            let sel = nd::any::<u8>() % 12;
+            let d = (nd::any::<u8>() % 4) as u128;
+            let pos: u128 = match sel {
+                0 => d, 1 => (1u128 << 32) - 1 - d, 2 => (1u128 << 32) + d, 3 => (1u128 << 64) - 1 - d, 4 => (1u128 << 64) + d,
+                5 => max - d, 6 => max / 2 + d, 7 => (max >> 1) - d, 8 => ((1u128 << 64) - 1 - d).wrapping_mul(3), _ => nd::any::<u128>(),
+            } & max;
+            let mut core = <$core>::inner_iv_init(c.clone(), &iv.into());
+            core.set_block_pos(pos as $ct);
+            assert!(core.get_block_pos() as u128 == pos, "block position read back differs from the one set");
+            let left = max - pos;
+            match core.remaining_blocks() {
+                Some(r) => assert!(r as u128 == left, "remaining_blocks() is not the exact number of blocks left"),
+                None => assert!(left > usize::MAX as u128, "remaining_blocks() is None although the number fits"),
+            }
+            // one more block is available iff something is left; generating it advances the position by one
+            if left >= 1 {
+                let mut blk = Default::default();
+                core.write_keystream_block(&mut blk);
+                assert!(core.get_block_pos() as u128 == pos + 1);
+            }
+        }
+    };
+}
+#[cfg(not(kani))]
+remaining!(misc_remaining_ctr32be, P4w2, 4, ctr::CtrCore<P4w2, ctr::flavors::Ctr32BE>, u32, u32::MAX as u128);
+#[cfg(not(kani))]
+remaining!(misc_remaining_ctr32le, P8w3, 8, ctr::CtrCore<P8w3, ctr::flavors::Ctr32LE>, u32, u32::MAX as u128);
+#[cfg(not(kani))]
+remaining!(misc_remaining_ctr64be, P8w3, 8, ctr::CtrCore<P8w3, ctr::flavors::Ctr64BE>, u64, u64::MAX as u128);
+#[cfg(not(kani))]
+remaining!(misc_remaining_ctr64le, P16w2, 16, ctr::CtrCore<P16w2, ctr::flavors::Ctr64LE>, u64, u64::MAX as u128);
+#[cfg(not(kani))]
+remaining!(misc_remaining_ctr128be, P16w2, 16, ctr::CtrCore<P16w2, ctr::flavors::Ctr128BE>, u128, u128::MAX);
+#[cfg(not(kani))]
+remaining!(misc_remaining_ctr128le, P16w3, 16, ctr::CtrCore<P16w3, ctr::flavors::Ctr128LE>, u128, u128::MAX);
+#[cfg(not(kani))]
+remaining!(misc_remaining_belt, P16w2, 16, belt_ctr::BeltCtrCore<P16w2>, u128, u128::MAX);
